@@ -688,6 +688,15 @@ def decorate(lines, seed):
         out.append(l)
         if t[0] in DEF_OPS and rng.random() < 0.35:
             out.append(f"name {t[1]} dn_{t[1]}"); applied.append("name")
+        # naming a single bit of a vector THROUGH the alias (x[i].setName(..)): the vector itself must be unaffected
+        wd = None
+        if t[0] == "in": wd = int(t[2])
+        elif t[0] == "lit" and t[2].startswith("u"): wd = int(t[2][1:])
+        elif t[0] in ("zext", "oext", "sext"): wd = int(t[3])
+        elif t[0] == "slice": wd = int(t[4])
+        if wd and t[1] not in mutable and rng.random() < 0.25:
+            i = rng.randrange(wd)
+            out.append(f"namebit {t[1]} {'msb' if i == wd - 1 and rng.random() < 0.5 else i} nb_{t[1]}_{i}"); applied.append("name-alias-bit")
         if t[0] in DEF_OPS and rng.random() < 0.08:
             out.append(f"attr {t[1]}"); applied.append("attr")
         if t[0] in DEF_OPS and rng.random() < 0.08:
@@ -697,7 +706,7 @@ def decorate(lines, seed):
     out, ren = [], {}
     for l in body:
         t = l.split()
-        if t[0] in ("name", "attr", "tap", "drop"):
+        if t[0] in ("name", "attr", "tap", "drop", "namebit"):
             out.append(l); continue
         # rename uses (all operand positions except the defined name)
         if t[0] in DEF_OPS or t[0] in ("out",):
